@@ -50,6 +50,9 @@ type Check struct {
 	Sites  int
 	Edges  int
 	Thorough bool
+	// RoleKeys: obligations reported while set are keyed by rule + construct only (the construct names a role,
+	// so the key survives moving the code between functions)
+	RoleKeys bool
 }
 
 func NewCheck(p *Prog, prop string) *Check {
@@ -116,7 +119,11 @@ func (c *Check) Report(ok bool, id, rule string, fn *ssa.Function, pos token.Pos
 		c.Funcs[FnName(fn)] = true
 	}
 	c.Sites++
-	c.add(Ob{ID: id, Rule: rule, Func: FnName(fn), KeyFunc: keyFunc(fn), Pos: c.P.Pos(pos), Construct: construct, Verdict: v, Why: why, Witness: witness})
+	kf := keyFunc(fn)
+	if c.RoleKeys {
+		kf = ""
+	}
+	c.add(Ob{ID: id, Rule: rule, Func: FnName(fn), KeyFunc: kf, Pos: c.P.Pos(pos), Construct: construct, Verdict: v, Why: why, Witness: witness})
 	return ok
 }
 
